@@ -582,6 +582,31 @@ Fixpoint spec_node (E : env) (path : str) (n : node) : list fmeta :=
 Definition spec_files (E : env) (path : str) (ch : list node) : list fmeta :=
   files_of E path (map item_of ch) ++ flat_map (spec_node E path) ch.
 
+(* folders addressable by path: (url of the root:/path lookup, (folder id, children)) *)
+Fixpoint path_folders (E : env) (site : str) (drive : option str) (path : str) (n : node)
+  : list (str * (option str * list node)) :=
+  match n with
+  | Folder (Some nm) i ch =>
+      let p := join_path path nm in
+      (path_url E site drive p, (i, ch)) :: flat_map (path_folders E site drive p) ch
+  | _ => []
+  end.
+
+(* the folder a folder_paths entry designates (None: no such folder -> 404 or not a folder -> skipped) *)
+Definition resolve (E : env) (site : str) (drive : option str) (T : list node) (p : str)
+  : option (option str * list node) :=
+  assoc (path_url E site drive p) (flat_map (path_folders E site drive []) T).
+
+(* reference listing for one entry of FileFilter.folder_paths: the files below the designated folder, their
+   parent paths starting at the folder path AS GIVEN (not quoted, not stripped); "" = the whole drive *)
+Definition spec_target (E : env) (site : str) (drive : option str) (T : list node) (p : str) : list fmeta :=
+  if nonempty p then
+    match resolve E site drive T p with
+    | Some (_, ch) => spec_files E p ch
+    | None => []
+    end
+  else spec_files E [] T.
+
 (* well-formedness of the simulated library/server (boolean) *)
 Fixpoint ids_ok (n : node) : bool :=
   match n with
